@@ -460,6 +460,10 @@ def pending_script(rng, kinds, nothers, closer=None, tcount=False):
     steps, finish = [], []
     k = 0
     has_wait = False
+    # a `shutdown` among the other requests lets `wait` answer: then it is awaited, not peeked at (a peek is only generated
+    # for a connection that certainly has no reply yet, so that no verdict depends on how fast a reply arrives)
+    shut = closer is not None and b"shutdown" in closer
+    slow = []
     for kind in kinds:
         k += 1
         body = b"ping p%d " % k + tok(rng) if rng.random() < 0.7 else rng.choice((b"zz-unknown p%d" % k, "räksmörgås p%d".encode() % k,
@@ -478,11 +482,12 @@ def pending_script(rng, kinds, nothers, closer=None, tcount=False):
             finish.append([st(OP_AWAIT, k)])
         elif kind == "slow":          # a plugin that takes its time
             steps.append(st(OP_SEND, k, b"t-slow p%d" % k))
-            finish.append([st(OP_PEEK, k), st(OP_RELEASE), st(OP_AWAIT, k)])
+            slow.append(k)
+            finish.append([st(OP_AWAIT, k)])
         elif kind == "wait":          # kvarn's own `wait`: answers when the instance shuts down
             steps.append(st(OP_SEND, k, b"wait"))
             has_wait = True
-            finish.append([st(OP_PEEK, k)])
+            finish.append([st(OP_AWAIT if shut else OP_PEEK, k)])
         elif kind == "drop":          # a client that goes away in the middle of its request
             steps += [st(OP_OPEN, k), st(OP_WRITE, k, b"ping gone"[:rng.randrange(0, 10)])]
             finish.append([st(OP_DROP, k)])
@@ -496,14 +501,20 @@ def pending_script(rng, kinds, nothers, closer=None, tcount=False):
         if closer is not None and n == nothers // 2:
             steps.append(st(OP_REQ, 20000, closer))
     rng.shuffle(finish)
+    released = False
     for f in finish:
+        if not released and f[0][1][1][1] in slow and f[0][1][0][1] == OP_AWAIT:
+            # all slow requests are still pending here: look, then open the gate
+            steps += [st(OP_PEEK, j) for j in slow] + [st(OP_RELEASE)]
+            released = True
         steps += f
     steps.append(st(OP_REQ, 30000, b"ping end"))
-    if has_wait:
+    if has_wait and not shut:
         steps.append(st(OP_SHUTDOWN))
         for i, kind in enumerate(kinds):
             if kind == "wait":
                 steps.append(st(OP_AWAIT, i + 1))
+    if has_wait:
         steps.append(st(OP_REQ, 30001, b"ping after"))
     return steps
 
